@@ -351,7 +351,7 @@ class T3World(World):
     kind = "tt3"
 
     def __init__(self, sx, nbr, nbw, nmaxb, oldlen=0, extra=2, emulated=False,
-                 ic_code=0xEE, writef=0x00, rwflag=0x01, fill=None):
+                 ic_code=0xEE, writef=0x00, rwflag=0x01, fill=None, standard=False):
         self.sx = sx
         nblk = 1 + nmaxb + extra
         mem = [None] * (nblk * 16)
@@ -372,7 +372,9 @@ class T3World(World):
             self.kind = "tt3emu"
             self.sim = tags.Tt3EmuSim(mem, idm, pmm)
         else:
-            self.sim = tags.Tt3Sim(mem, idm, pmm)
+            # standard=True: FeliCa Standard command set (the vendor class is
+            # selected by ic_code, e.g. 01h/20h FeliCa Standard, 10h Mobile)
+            self.sim = tags.Tt3Sim(mem, idm, pmm, standard=standard)
         self.clf = tags.SimClf(self.sim)
         self.unit = 16
 
